@@ -225,6 +225,7 @@ def run(ctx):
     # object happens to be cached in an object registry
     _regdep(ctx)
     _durable(ctx)
+    _sweep_inputs(ctx)
     # R11.reg
     e4 = e4mod.get(ctx.model)
     for f in e4.findings:
@@ -236,6 +237,47 @@ def run(ctx):
             continue
         ctx.ob("R11.reg", f.construct, f.ok, f.site, f.detail)
     ctx.require("R11.reg", len(e4.findings), 8, "registry rule instances")
+
+
+def _sweep_inputs(ctx):
+    """What the sweep is told (the current time, the cutoff) may depend on the
+    clock read when the timer fires and on constants -- not on values fixed when
+    the process started (a start-up timestamp captured by the timer callable):
+    those differ between a server that kept running and one that was rebuilt."""
+    from .. import roles as rolesmod
+    from ..events import each_event
+    from ..terms import walk, show
+    model = ctx.model
+    ctx.rule("R11.sweep", "the arguments of the sweep depend only on the clock read inside "
+             "the timer callable and on constants")
+    fi = model.timer_fi()
+    mod = ctx.repo.modules[fi.module]
+    lo, hi = fi.node.lineno, getattr(fi.node, "end_lineno", fi.node.lineno)
+    R = rolesmod.get(model)
+    n = 0
+    seen = set()
+    for p, e, loops in each_event(model, ["timer"], ("call",)):
+        if e["callee"] != R.sweep_all:
+            continue
+        n += 1
+        for a in list(e["args"]) + [v for _, v in e.get("kwargs", ())]:
+            for x in walk(a):
+                bad = None
+                if x[0] == "call" and len(x) > 4 and isinstance(x[4], tuple):
+                    site = x[4]
+                    if not (site[0] == mod.path and lo <= site[1] <= hi):
+                        bad = "%s read at %s:%d" % (x[1], site[0], site[1])
+                if x[0] in ("param",) or (x[0] == "unknown"):
+                    bad = "the value %s" % show(x)[:40]
+                if bad and bad not in seen:
+                    seen.add(bad)
+                    ctx.ob("R11.sweep", "sweep argument depends on %s" % bad, False, e,
+                           "the sweep's now / cutoff is computed from %s, a value fixed outside "
+                           "the timer callable (at process start): a server that was restarted "
+                           "sweeps with a different cutoff than one that kept running" % bad)
+    ctx.ob("R11.sweep", "sweep arguments come from the timer callable's own clock reading",
+           not seen, "", "%d sweep calls" % n)
+    ctx.require("R11.sweep", n, 1, "calls of the sweep from the timer callable")
 
 
 def _durable(ctx):
